@@ -1,5 +1,5 @@
 """Clause texts shared by a theory and a sidecar (no solver imports: the run-time reading loads the sidecars too)."""
-_FN_OF = ("ite(okind(o) is OK_method, obj___func__(o), ite(okind(o) is OK_property, obj_fget(o),"
+_FN_OF = ("ite(okind(o) is OK_method, obj___func__(o), ite(okind(o) is OK_property, unwrapped_(obj_fget(o)),"
           " ite(DJANGO_CP is not None and okind(o) is OK_cached_property, obj_func(o), o)))")
 _BAD = ("(okind(o) is OK_property and (obj_fget(o) is None or obj_fset(o) is not None or obj_fdel(o) is not None))"
         " or (okind(o) is not OK_method and okind(o) is not OK_property and not (DJANGO_CP is not None and okind(o) is OK_cached_property)"
